@@ -153,6 +153,7 @@ func (f *FS) PutFileRaw(abs string, data []byte) {
 	if !ok || n.Kind != KFile {
 		n = f.newNode(KFile, 0o644)
 		p.Children[name] = n
+		p.Mtime = now() // a new directory entry
 	}
 	n.Data = append([]byte(nil), data...)
 	n.Mtime = now()
